@@ -212,8 +212,7 @@ def base_case(ctx, rng, idx):
                         sim_n.copy())[0])
             ctx.count('nonpositive_simulations')
             ref_v = vals['plain']
-            if any(not FM.same(v_, ref_v) for v_ in vals.values()) or \
-                    np.isfinite(ref_v):
+            if any(not FM.same(v_, ref_v) for v_ in vals.values()):
                 ctx.violation('invariance',
                               'nonpositive_simulation_scores_differ:' + cname,
                               {'scores': vals, 'case': describe}, feats)
